@@ -479,7 +479,9 @@ class UndoDriver(ReorgDriver):
 
     def undo_heights(self):
         import struct
-        d = self.w.store.dbs.get('utxo', {})
+        d = self.w.store.dbs.get('utxo')
+        if d is None:
+            return []
         return sorted(struct.unpack('>I', k[1:])[0] for k in d.irange(b'U', b'V', inclusive=(True, False))
                       if len(k) == 5)
 
@@ -503,6 +505,7 @@ class UndoDriver(ReorgDriver):
         w = self.w
         if w.server is not None:
             return      # only a fresh start is judged: rows legitimately accumulate while running
+        before = set(self.undo_heights())
         w.start()
         r = w.run(lambda: w.server is not None and w.server.bp is not None
                   and w.server.bp.state is not None, 120.0)
@@ -512,6 +515,14 @@ class UndoDriver(ReorgDriver):
         L = w.k['reorg_limit']
         low = [x for x in self.undo_heights() if x < h - L + 1]
         self.probe('undo.open_checked')
+        lost = [x for x in range(max(1, h - L + 1), h + 1) if x in before and x not in
+                set(self.undo_heights())]
+        if before and max(before) > h:
+            self.probe('undo.open_with_rows_above_tip')
+        if lost:
+            self.violate('C15', 'undo.window_pruned', f'opened at height {h} with reorg limit {L}: undo '
+                         f'rows for heights {lost[:8]} inside the window existed before the stop and '
+                         'were removed on start-up')
         if low:
             self.violate('C15', 'undo.not_pruned', f'opened at height {h} with reorg limit {L}: undo '
                          f'rows for heights {low[:8]} below the window were not removed')
@@ -751,6 +762,19 @@ class UndoFamily(ReorgFamily):
             # natural forks within the window right away (rows of every origin)
             plan.append(dict(op='fork', depth=rng.choice([1, Le]), extra=1, ntx=[2, 3], remine=0.5,
                              seed=rng.getrandbits(32)))
+            plan.append(dict(op='sync'))
+            plan.append(dict(op='undo_check'))
+        if rng.random() < 0.5:
+            # a reorganisation interrupted while blocks are being undone (stop or crash), then restart
+            plan.append(dict(op='fork', depth=rng.choice([1, 2, Le]), extra=1, ntx=[2, 3], remine=0.5,
+                             seed=rng.getrandbits(32)))
+            if rng.random() < 0.5:
+                plan.append(dict(op='crash_when', cond='backupop', skip=rng.randint(0, 2 * Le + 1),
+                                 window=60.0, until_caught_up=False))
+            else:
+                plan.append(dict(op='sigterm_when', cond='backup', skip=rng.choice([0, 1, 3, 8]),
+                                 window=60.0))
+            plan.append(dict(op='open_check'))
             plan.append(dict(op='sync'))
             plan.append(dict(op='undo_check'))
         plan.append(dict(op='snapshot', keep=True))
